@@ -321,17 +321,42 @@ theorem xkey_text_roundtrip (H : Bytes → Bytes) (hH : ∀ x, (H x).length = 32
       (KeyText.xkeyEncode H k).length ≤ Gen.Base58.MAX_LENGTH :=
   KeyText.xkey_roundtrip H hH k hv
 
-/-! ## SLIP132 version ↔ script type (table generated from `network.py`) -/
-open Btc.Slip132 Gen.Net in
-/-- T6 (SLIP132): an extended-key version has exactly one meaning (script type, private/public, main/test);
-    the version `p2pkh_xkey / p2wpkh_xkey / p2wpkh_p2sh_xkey` give a child keeps the parent's privacy and
-    network type and commits to the requested script type; and the address written from a PUBLIC child of
-    type k is of type k — a public parent never receives another type's public version. -/
+/-! ## SLIP132 version ↔ script type (tables generated from `network.py` and `slip132.py`) -/
+open Btc.Slip132 Btc.Address Gen.Net in
+/-- T6 (SLIP132). The model mirrors slip132.py: `builderVersion` is `version = network.A if xkey.is_private else
+    network.B` on `NETWORKS[network_from_xkeyversion(xkey.version)]`, with A and B REGENERATED from the source of
+    the THREE builders slip132.py has (`SLIP132_BUILDERS`), and `addressDispatch` is `address_from_xpub`'s loop over
+    the regenerated (field, function) list. Against the table `SLIP132` read off the Network field NAMES:
+    (1) a version has one meaning (script type, private/public, main/test);
+    (2) for a parent of ANY version of ANY network and either privacy of the KEY (the builders read `key[0]`, not
+        the version), each builder hands `derive` the version whose meaning is (the type the builder is named for,
+        the key's privacy, the parent's network type);
+    (3) `address_from_xpub` of the version a builder gave a PUBLIC key calls the address function of the builder's
+        type with a network of the parent's type;
+    (4) on every version of the table the dispatch agrees with the table: public p2pkh / p2wpkh / p2wpkh-p2sh versions
+        go to the function of their type on a network of their type, private versions and the two p2wsh types are
+        refused ("unknown xpub version");
+    (5) the three builders are for three different types, the dispatch lists three different functions;
+    (6) every version of every network is in the table with the network's type.
+    Tied to the real functions by the exhaustive stream `slip132` and the oracle `slip132.address_type`. -/
 theorem slip132_version_commits_to_type :
     (∀ a ∈ SLIP132, ∀ b ∈ SLIP132, a.1 = b.1 → a = b) ∧
-    (∀ p ∈ SLIP132, ∀ k, k < 5 → ∃ v, versionFor p.1 k = some v ∧ info v = some (k, p.2.2.1, p.2.2.2)) ∧
-    (∀ p ∈ SLIP132, p.2.2.1 = false → ∀ k, k < 3 → ∃ v, versionFor p.1 k = some v ∧ addressKind v = some k) ∧
+    (∀ n ∈ NETWORKS, ∀ pv ∈ versionsOf n, ∀ b ∈ SLIP132_BUILDERS, ∀ prv : Bool,
+      ∃ k v, builderKind b.1 = some k ∧ builderVersion b.1 pv prv = some v ∧ info v = some (k, prv, n.isMain)) ∧
+    (∀ n ∈ NETWORKS, ∀ pv ∈ versionsOf n, ∀ b ∈ SLIP132_BUILDERS,
+      ∃ k v fn m, builderKind b.1 = some k ∧ builderVersion b.1 pv false = some v ∧
+        addressDispatch v = some (fn, m) ∧ functionKind fn = some k ∧ m.isMain = n.isMain) ∧
+    (∀ r ∈ SLIP132,
+      (r.2.2.1 = false ∧ r.2.1 < 3 → ∃ fn m, addressDispatch r.1 = some (fn, m) ∧ functionKind fn = some r.2.1 ∧
+        m.isMain = r.2.2.2) ∧
+      (r.2.2.1 = true ∨ 3 ≤ r.2.1 → addressDispatch r.1 = none)) ∧
+    (SLIP132_BUILDERS.map (fun r => builderKind r.1) = [some 0, some 1, some 2] ∧
+      SLIP132_ADDRESS.map (fun r => functionKind r.2) = [some 0, some 1, some 2]) ∧
     (∀ n ∈ NETWORKS, ∀ v ∈ n.xprv ++ n.xpub, ∃ i, info v = some i ∧ i.2.2 = n.isMain) :=
-  ⟨version_unique, versionFor_spec, addressKind_versionFor, table_covers_networks⟩
+  ⟨version_unique, builder_spec, address_of_built, dispatch_table, builders_distinct, table_covers_networks⟩
+
+-- a zpub parent (mainnet p2wpkh public) asked for a p2wpkh-p2sh child gets the ypub version, written by b58.p2wpkh_p2sh
+example : Slip132.builderVersion "p2wpkh_p2sh_xkey" [4, 178, 71, 70] false = some [4, 157, 124, 178] ∧
+    (Slip132.addressDispatch [4, 157, 124, 178]).map (·.1) = some "b58.p2wpkh_p2sh" := by decide +kernel
 
 end Props.C06
